@@ -5,12 +5,12 @@ CONFIG = dict(
     drv="drv_c15",
     lean_modules=["MahfModel.Props.C15"],
     namespaces=["MahfModel.Props.C15"],
-    shrink_lists=["rules", "tree", "loop", "scope"],
+    shrink_lists=["rules", "tree", "loop", "scope", "ifx"],
     level="proof",
     rule=("(1) logger: 24 log configurations (no LogConfig / empty / always / never / every-n / Not / scripted triggers incl. Err, with_many, clear, "
-          "duplicate entry names, sources missing) x 17 logger placements (before / inside / after a loop, twice in a loop, inside a "
+          "duplicate entry names, sources missing) x 20 logger placements (before / inside / after a loop, twice in a loop, inside a branch, inside a "
           "scope, nested loops, two loops, no loop at all) x iteration counts 0..5, plus seeded random programs over "
-          "Block/Loop/Scope/Logger/SetX/AddX with random rule sets (2500 quick / 20000 thorough); each is a REAL Configuration built "
+          "Block/Loop/Branch/Scope/Logger/SetX/AddX with random rule sets (2500 quick / 100000 thorough); each is a REAL Configuration built "
           "with the ConfigurationBuilder, configured through State::configure_log, run by optimize_with; the log is exported with "
           "to_json and to_cbor, both files are decoded and compared with the model's log and compress. (2) template-log: all 21 "
           "templates x variants x random every-n rule sets (8 rules, duplicate names, a missing source), witness = snapshot of the "
